@@ -43,6 +43,11 @@ pub fn ignore_filter(entry: &DirEntry, ignore: &Option<Gitignore>) -> bool {
     match ignore {
         None => true,
         Some(gi) => {
+            // The source directory itself is never subject to its
+            // own ignore file.
+            if entry.depth() == 0 {
+                return true;
+            }
             let path = entry.path();
             // Like git, treat a symlink to a directory as a file;
             // only real directories match `dir/` patterns.
